@@ -73,8 +73,12 @@ class ExactAlgorithmPulp(RankAggAlgorithm, PairwiseBasedAlgorithm):
         ExactAlgorithmPulp._add_binary_constraints(nb_elem, prob, my_vars, h_vars)
         ExactAlgorithmPulp._add_transitivity_constraints(nb_elem, prob, my_vars, h_vars)
         ExactAlgorithmPulp._add_personal_optimization_constraints(prob, my_vars, h_vars, graph, cost_matrix)
-        # objective function
-        prob += pulp.lpSum(my_vars[cpt] * my_values[cpt] for cpt in range(len(my_vars)))
+        # objective function. The costs are normalised by the highest one: the solver uses absolute tolerances, so very
+        # small penalties would all look equal (non-optimal consensus) and very large ones are out of its numeric range
+        highest_cost: float = max(my_values, default=0.)
+        if highest_cost <= 0.:
+            highest_cost = 1.
+        prob += pulp.lpSum(my_vars[cpt] * (my_values[cpt] / highest_cost) for cpt in range(len(my_vars)))
 
         prob.solve(pulp.PULP_CBC_CMD(msg=False))
 
@@ -102,7 +106,7 @@ class ExactAlgorithmPulp(RankAggAlgorithm, PairwiseBasedAlgorithm):
         # In that case, the Kemeny score is not set and will be computed by the Consensus object if needed
         objective_value = prob.objective.value()
         if objective_value is not None:
-            att[ConsensusFeature.KEMENY_SCORE] = objective_value
+            att[ConsensusFeature.KEMENY_SCORE] = objective_value * highest_cost
         return Consensus(consensus_rankings=[Ranking(ranking)],
                          dataset=dataset,
                          scoring_scheme=scoring_scheme,
